@@ -107,14 +107,33 @@ def fld0(ex, s, name, sort, obj=THIS):
     return tm.select(entry_arr(ex, s, ("f", name, sort)), obj)
 
 
+def _sym0(prefix, key):
+    if key[0] == "f":
+        return tm.sym("%s.%s:%s" % (prefix, key[1], key[2]), ("A", "P", key[2]))
+    if key[0] == "m2":
+        return tm.sym("%s.%s:%s[%s]" % (prefix, key[1], key[2], key[3]), ("A", "P", key[3], key[2]))
+    return tm.sym("%s.mem:%s" % (prefix, key[1]), ("A", "P", "I", key[1]))
+
+
 def entry_arr(ex, s, key):
+    """the memory component as it was when the region / iteration was entered.  Opaque calls inside the region rename the
+    components (H<n> prefixes); the entry value keeps the prefix H0 (or Hiter when the loop itself writes the component)."""
+    if key in getattr(ex, "iter_written", ()) and getattr(s, "iter_entry_arrays", None) is not None:
+        return _sym0("Hiter", key)
     a = s.heap.get(key)
     if a is None:
         return ex.heap_arr(s, key)
     stop = getattr(s, "iter_entry_arrays", {}).get(key, ())
-    while a.op == "store" and a not in stop:
-        a = a.args[0]
-    return a
+    b = a
+    while b.op == "store" and b not in stop:
+        b = b.args[0]
+    if b in stop:
+        return b
+    if b.op == "sym" and (b.args[0].startswith("H0.") or b.args[0].startswith("Hiter.")):
+        return b
+    if stop:
+        return sorted(stop, key=repr)[0]
+    return _sym0("H0", key)
 
 
 def writes(s, key):
